@@ -1002,7 +1002,39 @@ fn c11(cx: &mut Ctx) {
         let very_long = i % 25 == 24;
         let (target, undo, irr, query_every) = if very_long && !terminal { (250 + cx.rng.below(170), if cx.rng.chance(1, 2) { 0 } else { 20 }, None, 16) } else { (target, undo, irr, 1) };
         if very_long && !terminal { cx.sink.count("plans_beyond_255_halfmoves"); }
-        let plan = DrawPlan { target, lose_rights_at: lose, irreversible_at: irr, undo_pct: undo, finish_terminal_from: fin, query_every };
+        let mut plan = DrawPlan { target, lose_rights_at: lose, irreversible_at: irr, undo_pct: undo, finish_terminal_from: fin, query_every, prefix: Vec::new(), irreversible_kind: 6 };
+        let mut start = start;
+        // every fourth program: the fifty-move boundary counted from an irreversible move of a chosen
+        // KIND played early (en-passant capture, capture by pawn / by piece, single / double push,
+        // promotion), then 98..102 reversible half-moves without deliberate repetition
+        if i % 4 == 3 && !terminal && !very_long {
+            let kind = (i / 4) % 6;
+            let mut found = false;
+            for _ in 0..200 {
+                let (root, forced) = match special_scenario(&mut cx.rng) { Some(x) => x, None => continue };
+                let mut cur = root;
+                for m in forced.iter() { cur = match guard(|| cur.make_move_new(*m)) { Some(n) => n, None => break }; }
+                let ms = ops::moves_of(&cur).unwrap_or_default();
+                let has = ms.iter().any(|m| { let c = classify(&cur, *m); match kind { 0 => c.ep, 1 => c.capture && c.pawn && !c.ep, 2 => c.capture && !c.pawn, 3 => c.pawn && !c.capture && !c.double_push && !c.promo, 4 => c.double_push, _ => c.promo } });
+                if has && root.combined().popcnt() <= 12 {
+                    start = root;
+                    plan.prefix = forced;
+                    found = true;
+                    break;
+                }
+            }
+            if found {
+                let k = plan.prefix.len();
+                plan.irreversible_at = Some(k);
+                plan.irreversible_kind = kind;
+                plan.lose_rights_at = None;
+                plan.undo_pct = 0;
+                plan.target = k + 1 + 98 + cx.rng.below(5);
+                cx.sink.hist("boundary_after_irreversible_kind", ["en_passant", "pawn_capture", "piece_capture", "single_push", "double_push", "promotion"][kind].to_string());
+            }
+        }
+        let lose = plan.lose_rights_at;
+        let irr = plan.irreversible_at;
         let acts = draw_program(&mut cx.rng, &start, &plan);
         if terminal { cx.sink.count("plans_finishing_by_mate_or_stalemate_at_boundary"); }
         let moves = acts.iter().filter(|a| matches!(a, ops::Act::M(_))).count();
